@@ -1,7 +1,8 @@
 (** Property C19: constants and stubs are consistent across build targets.
     [targets] (GenConsts.v) holds, for EVERY GOOS/GOARCH pair of `go tool dist list`, whether package seccomp
-    type-checks for that target and the values of its constants as the Go type checker evaluates them there;
-    [stubs] (GenStubs.v) describes the bodies of seccomp_unsupported.go. Both are regenerated on every run. *)
+    type-checks for that target, the values of its constants as the Go type checker evaluates them there, the files
+    the build constraints select and - [tc_bodies] - what the three loader functions of THAT build contain (number of
+    call expressions, sole returned expression). Regenerated on every run. *)
 From Coq Require Import List NArith Bool String.
 From Seccomp Require Import Words Result Machine Assembler Policy Tables Text TextProofs PolicyTop.
 From Gen Require Import GenTables GenArches GenNames GenStubs GenConsts.
